@@ -468,6 +468,7 @@ int main(int argc, char **argv) {
     E.to_text = to_text;
     E.from_text = from_text;
     E.default_cases = [](const rt::Args &a) { return a.tier == "thorough" ? 120000L : 4000L; };
+    E.hang_is_failure = true;
     return rcm::run(argc, argv, E);
 }
 #endif // !FUZZ_TARGET
